@@ -820,6 +820,12 @@ fn process_fn(ctx: &mut Ctx, d: &FnDirective, assume_default: bool, tfile: &str)
     let repo = ctx.repo.clone();
     let _ = repo;
     ctx.src(&d.file);
+    if d.opts.has("optional") && find_fn(&ctx.srcs[&d.file].ast.items, &d.qual).is_none() {
+        // an `optional` function (a helper no property statement mentions) that no longer exists is simply not emitted;
+        // any remaining caller then fails to compile (exit 2), so nothing is silently lost
+        ctx.emit(&format!("// (optional function {} is absent from /repo/{})\n", d.qual, d.file));
+        return;
+    }
     let src = &ctx.srcs[&d.file];
     let loc = find_fn(&src.ast.items, &d.qual)
         .unwrap_or_else(|| fail(format!("{}:{}: function {} not found in {}", tfile, d.tline, d.qual, d.file)));
@@ -927,6 +933,11 @@ fn process_fn(ctx: &mut Ctx, d: &FnDirective, assume_default: bool, tfile: &str)
                 "entry" => ed.insert(block_open + 1, format!("\n{}", t.trim_end_matches('\n')), 0, a),
                 "loop" => {
                     let k: usize = words.get(1).and_then(|w| w.parse().ok()).unwrap_or_else(|| lost("bad loop index"));
+                    // `optional`: a hint for a loop that no longer exists is dropped (the function must then verify without it)
+                    if scan.loops.get(k).is_none() && words.last() == Some(&"optional") {
+                        anchors_used.push(format!("{} [SKIPPED: no such loop]", a));
+                        continue;
+                    }
                     let lp = scan.loops.get(k).unwrap_or_else(|| lost("no such loop"));
                     match words.get(2).copied() {
                         Some("label") => {
